@@ -473,11 +473,7 @@ theorem pair_facts (k v hv : List Char) (hk : ValidKey k) (h : dumpValue v = .ok
         decide
     rw [hvstrip, unquote_quoted, Py.decodeReplace_utf8Enc]
 
-/-- the `Cookie:` request header a client sends for a jar: pairs joined by `; ` -/
-def jarText : List (List Char × List Char) → List Char
-  | [] => []
-  | [(k, hv)] => k ++ '=' :: hv
-  | (k, hv) :: p :: t => k ++ '=' :: hv ++ ';' :: ' ' :: jarText (p :: t)
+-- `jarText` (pairs joined by `; `) lives in Model/Cookie.lean so that the driver can run it
 
 /-- what the scanner needs to know about one raw pair -/
 def ScanGood (p : List Char × List Char) : Prop :=
